@@ -17,6 +17,17 @@ ExcludeRegionPlugin = pkg.ExcludeRegionPlugin
 _APP = flask.Flask("verif_excluderegion")
 
 
+def fresh_objects(value):
+    """An equal value made of newly created objects (as after a JSON / YAML round trip)."""
+    if isinstance(value, str):
+        return "".join(list(value)) if value else value
+    if isinstance(value, dict):
+        return dict((fresh_objects(k), fresh_objects(v)) for k, v in value.items())
+    if isinstance(value, (list, tuple)):
+        return [fresh_objects(v) for v in value]
+    return value
+
+
 class StubSettings(object):
     """Dict-backed stand-in for the plugin's settings object."""
 
@@ -24,10 +35,19 @@ class StubSettings(object):
         self.values = values
 
     def get(self, path, **kwargs):  # pylint: disable=unused-argument
-        return copy.deepcopy(self.values.get(path[0]))
+        # what OctoPrint hands out was loaded from YAML / JSON: equal values, but never the very string objects of the source code
+        return fresh_objects(self.values.get(path[0]))
 
     def get_boolean(self, path, **kwargs):  # pylint: disable=unused-argument
-        return bool(self.values.get(path[0]))
+        # octoprint.settings.Settings.get_boolean: bools as they are, numbers != 0, strings by their spelling
+        value = self.values.get(path[0])
+        if value is None or isinstance(value, bool):
+            return bool(value)
+        if isinstance(value, (int, float)):
+            return value != 0
+        if isinstance(value, str):
+            return value.lower() in ("true", "yes", "y", "1", "on")
+        return value is not None
 
     def get_plugin_logfile_path(self, *args, **kwargs):  # pylint: disable=unused-argument
         return "/dev/null"
@@ -122,7 +142,13 @@ class Harness(object):
 
     def event(self, name, payload=None):
         self._sync_globals()
-        self.plugin.on_event(getattr(Events, name), payload or {})
+        try:
+            self.plugin.on_event(getattr(Events, name), payload or {})
+        except Exception as exc:  # pylint: disable=broad-except
+            # OctoPrint's event bus logs and swallows a handler's exception; checks that want the same set swallow_event_errors
+            if not getattr(self, "swallow_event_errors", False):
+                raise
+            self.event_errors = getattr(self, "event_errors", []) + ["%s: %s" % (type(exc).__name__, exc)]
 
     def update_settings(self, **changes):
         for k, v in changes.items():
@@ -162,7 +188,7 @@ class Harness(object):
     def api(self, command, data, anonymous=False):
         self._sync_globals(anonymous)
         try:
-            return self.plugin.on_api_command(command, dict(data))
+            return self.plugin.on_api_command(command, fresh_objects(dict(data)))      # (a parsed JSON body)
         finally:
             USER.anonymous = False
 
